@@ -6,6 +6,7 @@ CONSTANTS
   MaxLook = 0
   Proxies = {}
   PidFaults = FALSE
+  ProxyUnregisters = FALSE
   Mutant = "everycall"
 INVARIANTS
   NoStaleUnregister
